@@ -918,7 +918,8 @@ func (e *Exec) appendOp(ins ssa.Instruction, c *ssa.CallCommon, args []Value, st
 	fits := Le(newLen, s.Cap)
 	// growth: a fresh array of some capacity >= newLen
 	newCap := Fresh("append.cap", I64)
-	e.ctx.assume(And(Le(newLen, newCap), Le(newCap, ConstI(maxAddr, I64))))
+	// growth is bounded (Go's growslice at most doubles and rounds up to a size class)
+	e.ctx.assume(And(Le(newLen, newCap), Le(newCap, ConstI(maxAddr, I64)), Le(newCap, AddNW(Mul(ConstI(4, I64), newLen), ConstI(4096, I64)))))
 	fresh := e.allocSlice(s.Elem, newLen, newCap, st, false)
 	resPtr := Ite(fits, s.Ptr, fresh.Ptr)
 	resCap := Ite(fits, s.Cap, newCap)
